@@ -42,6 +42,7 @@ func register(s *Scenario) { scenarios = append(scenarios, s) }
 // Result is what one worker run reports to the check driver.
 type Result struct {
 	Prop        string              `json:"prop"`
+	Engine      string              `json:"engine"`
 	Scenario    string              `json:"scenario"`
 	Desc        string              `json:"desc"`
 	Bound       int                 `json:"bound"`
@@ -186,7 +187,7 @@ func main() {
 				Msg: "no explored schedule showed the required observation " + sc.MustSee})
 		}
 	}
-	res := &Result{Prop: sc.Prop, Scenario: sc.Name, Desc: sc.Desc, Bound: *bound, FreeBound: *fbound, Shard: *shard, NShards: *nshards,
+	res := &Result{Prop: sc.Prop, Engine: "A", Scenario: sc.Name, Desc: sc.Desc, Bound: *bound, FreeBound: *fbound, Shard: *shard, NShards: *nshards,
 		Execs: x.Execs, Transitions: x.Transitions, States: len(x.States), MaxPoints: x.MaxPoints,
 		Outcomes: x.Outcomes, Capped: x.Capped, HarnessErr: x.HarnessErr, Violations: x.Viols,
 		Longest: x.Longest, Sample: x.Sample, WallS: time.Since(start).Seconds()}
